@@ -18,7 +18,7 @@ PROPS = {
         "level": "proof",
         "translators": [{"name": "kernel", "out": "KernelGen.lean"}],
         "proof_module": "GeoProofs.Props.C19All",
-        "theorems": ["Geo.onSeg_iff_param", "Geo.raycast_on_iff", "Geo.raycast_in_iff", "Geo.raycast_on_not_in", "Geo.raycast_symm", "Geo.segIntersects_iff", "Geo.segIntersects_symm", "Geo.segContainsSeg_iff", "Geo.segContainsSeg_iff_subset", "Geo.collinearPt_iff", "Geo.segBox_tight", "Geo.spec_onSeg_iff", "Geo.spec_crosses_iff", "Geo.spec_segsMeet_iff", "Geo.raycast_float_exact", "Geo.raycast_float_exact_fuel", "Geo.segIntersects_float_exact", "Geo.segIntersects_float_exact_val", "Geo.segIntersects_float_exact_partial", "Geo.containsSegment_float_exact", "Geo.collinearPoint_float_exact", "Geo.F.rn_of_F64", "Geo.F.rn_mono", "Geo.F.rn_neg", "Geo.F.rn_rel_error", "Geo.F.rn_eq_zero_iff", "Geo.F.cross_exact", "Geo.F.rn_quot_lt", "Geo.F.rn_quot_eq_iff", "Geo.F.fdiv_eq_iff", "Geo.F.fdiv_le_iff", "Geo.F.tcmp", "Geo.F.nudge_E", "Geo.F.F64_rn", "Geo.F.nextUp_least", "Geo.F.Grid_nextUp", "Geo.F.rn_quot_le_iff", "Geo.F.nextUp_E", "Geo.kgen_raycast_float_exact", "Geo.kgen_intersectsSegment_float_exact", "Geo.kgen_containsSegment_float_exact", "Geo.kgen_collinearPoint_float_exact", "Geo.F.kgen_raycast_handF", "Geo.F.kgen_intersects_handF"],
+        "theorems": ["Geo.onSeg_iff_param", "Geo.raycast_on_iff", "Geo.raycast_in_iff", "Geo.raycast_on_not_in", "Geo.raycast_symm", "Geo.segIntersects_iff", "Geo.segIntersects_symm", "Geo.segContainsSeg_iff", "Geo.segContainsSeg_iff_subset", "Geo.collinearPt_iff", "Geo.segBox_tight", "Geo.spec_onSeg_iff", "Geo.spec_crosses_iff", "Geo.spec_segsMeet_iff", "Geo.raycast_float_exact", "Geo.raycast_float_exact_fuel", "Geo.segIntersects_float_exact", "Geo.segIntersects_float_exact_val", "Geo.segIntersects_float_exact_partial", "Geo.containsSegment_float_exact", "Geo.collinearPoint_float_exact", "Geo.F.rn_of_F64", "Geo.F.rn_mono", "Geo.F.rn_neg", "Geo.F.rn_rel_error", "Geo.F.rn_eq_zero_iff", "Geo.F.cross_exact", "Geo.F.rn_quot_lt", "Geo.F.rn_quot_eq_iff", "Geo.F.fdiv_eq_iff", "Geo.F.fdiv_le_iff", "Geo.F.tcmp", "Geo.F.nudge_E", "Geo.F.F64_rn", "Geo.F.nextUp_least", "Geo.F.Grid_nextUp", "Geo.F.rn_quot_le_iff", "Geo.F.nextUp_E", "Geo.kgen_raycast_float_exact", "Geo.kgen_intersectsSegment_float_exact", "Geo.kgen_containsSegment_float_exact", "Geo.kgen_collinearPoint_float_exact", "Geo.F.kgen_raycast_handF", "Geo.F.kgen_intersects_handF", "Geo.kgen_segmentRect_float_exact", "Geo.kgen_segmentRect_float_minmax", "Geo.kgen_rectContainsPoint_float_exact", "Geo.kgen_rectIntersectsPoint_float_exact", "Geo.kgen_rectContainsRect_float_exact", "Geo.kgen_rectIntersectsRect_float_exact", "Geo.kgen_rectRect_float_exact", "Geo.kgen_pointValid_float_exact", "Geo.kgen_rectValid_float_exact", "Geo.kgen_pointRect_float_exact", "Geo.kgen_pointContainsPoint_float_exact", "Geo.kgen_pointIntersectsPoint_float_exact", "Geo.kgen_pointContainsRect_float_exact", "Geo.kgen_pointIntersectsRect_float_exact", "Geo.kgen_rectCenter_float_exact", "Geo.kgen_rectCenter_float_exact_E", "Geo.kgen_rectArea_float_exact", "Geo.kgen_rectArea_float_exact_E", "Geo.kgen_pointMove_float_exact", "Geo.kgen_pointMove_float_exact_E", "Geo.kgen_rectMove_float_exact", "Geo.kgen_rectMove_float_exact_E", "Geo.kgen_segmentMove_float_exact", "Geo.kgen_segmentMove_float_exact_E", "Geo.F.ofRat_F64", "Geo.F.kofNat_small"],
         "trivial_sigs": RAY_TRIVIAL | SI_TRIVIAL,
         "claim": "Proof (Lean 4): raycast on/in, segment-intersects (symmetric), segment-contains, collinear-point and segment box are exact for all rational points incl. degenerate segments, with the IEEE division corner cases handled explicitly. Float bridge (Props/FloatBridge.lean): the kernels RE-TRANSLATED from geometry/raycast.go and segment.go on every run (translate kernel -> Generated/KernelGen.lean), evaluated in an exact model of IEEE-754 binary64 (round-to-nearest-even over Q, Nextafter, NaN/Inf), equal the exact model on the whole regime E, return sites included (kgen_raycast_float_exact, kgen_intersects_float_exact, kgen_containsSegment_float_exact, kgen_collinearPoint_float_exact). Tie: exhaustive small lattices and adversarial random cases over E against the hand model, and the generated kernels at Float against the Go code on arbitrary doubles (NaN, Inf, denormals, huge magnitudes).",
         "rule": "exhaustive (segment,point) triples on the 5x5 lattice and segment pairs on the 4x4 lattice (6x6/5x5 thorough) "
@@ -29,8 +29,9 @@ PROPS = {
     "C18": {
         "suites": ["c18"],
         "level": "proof",
-        "proof_module": "GeoProofs.Props.C18",
-        "theorems": ["Geo.convex_iff", "Geo.clockwise_iff", "Geo.rect_tight", "Geo.bboxSpec_tight", "Geo.clockwiseSpec_iff_area", "Geo.numSegments_spec", "Geo.segmentAt_spec", "Geo.convexSpec_rotate", "Geo.clockwiseSpec_rotate", "Geo.convexSpec_closing", "Geo.clockwiseSpec_closing", "Geo.processPoints_rotate_convex", "Geo.processPoints_rotate_clockwise", "Geo.processPoints_closing_convex", "Geo.processPoints_closing_clockwise"],
+        "translators": [{"name": "series", "out": "SeriesGen.lean"}],
+        "proof_module": "GeoProofs.Props.C18All",
+        "theorems": ["Geo.convex_iff", "Geo.clockwise_iff", "Geo.rect_tight", "Geo.bboxSpec_tight", "Geo.clockwiseSpec_iff_area", "Geo.numSegments_spec", "Geo.segmentAt_spec", "Geo.convexSpec_rotate", "Geo.clockwiseSpec_rotate", "Geo.convexSpec_closing", "Geo.clockwiseSpec_closing", "Geo.processPoints_rotate_convex", "Geo.processPoints_rotate_clockwise", "Geo.processPoints_closing_convex", "Geo.processPoints_closing_clockwise", "Geo.sgen_processPoints_noPanic", "Geo.sgen_processPoints_rect", "Geo.sgen_processPoints_convex", "Geo.sgen_processPoints_exact", "Geo.sgen_processPoints_exact_of_bound", "Geo.ringR1_sum", "Geo.ringR2_sum", "Geo.ringR1_partial", "Geo.ringR2_partial"],
         "trivial_sigs": {"at--"},
         "claim": "Proof (Lean 4): convex flag = no two opposite turns on the cyclic vertex sequence, clockwise flag = negative signed area, rectangle tight, both flags independent of start vertex and closing vertex, segment count/i-th segment rule - for every vertex sequence. Tie: all sequences of length <= 5 on the 3x3 lattice plus random long ones.",
         "rule": "every vertex sequence of length 1..5 on the 3x3 lattice as a closed ring (and short ones as open series), plus random "
@@ -40,8 +41,8 @@ PROPS = {
     "C01": {
         "suites": ["c01"],
         "level": "proof",
-        "proof_module": "GeoProofs.Props.C01Index",
-        "theorems": ["Geo.containsPoint_fold_perm", "Geo.ringContainsPoint_hit_iff", "Geo.ringContainsPoint_hit_iff_none", "Geo.ringContainsPoint_hit_iff_quadtree", "Geo.ringContainsPoint_idx_on", "Geo.rectRing_containsPoint_iff", "Geo.polyContainsPoint_iff", "Geo.lineContainsPoint_iff", "Geo.rectContainsPoint_iff", "Geo.ringContainsPoint_index_indep", "Geo.ringContainsPoint_hit_iff_rtree", "Geo.polyContainsPoint_iff_rtree", "Geo.lineContainsPoint_iff_rtree"],
+        "proof_module": "GeoProofs.Props.C01All",
+        "theorems": ["Geo.containsPoint_fold_perm", "Geo.ringContainsPoint_hit_iff", "Geo.ringContainsPoint_hit_iff_none", "Geo.ringContainsPoint_hit_iff_quadtree", "Geo.ringContainsPoint_idx_on", "Geo.rectRing_containsPoint_iff", "Geo.polyContainsPoint_iff", "Geo.lineContainsPoint_iff", "Geo.rectContainsPoint_iff", "Geo.ringContainsPoint_index_indep", "Geo.ringContainsPoint_hit_iff_rtree", "Geo.polyContainsPoint_iff_rtree", "Geo.lineContainsPoint_iff_rtree", "Geo.c01_leaf_point_relations", "Geo.c01_obj_point_exact", "Geo.c01_obj_point_exact_shape", "Geo.Geom.C01Cfg.member_eq", "Geo.c01Cfg_poly_none", "Geo.c01Cfg_line_none", "Geo.c01Cfg_line_dyadic", "Geo.c01Cfg_poly_dyadic", "Geo.c01_point_relations_agree", "Geo.c01_intersects_point_all", "Geo.c01_contains_point_all", "Geo.c01_point_intersects_all"],
         "trivial_sigs": set(),
         "claim": "Proof (Lean 4): for every vertex list, every query point and every index kind/threshold the model's ring/polygon/line/rect membership equals the crossing-parity specification (ringContainsPoint_hit_iff, polyContainsPoint_iff, lineContainsPoint_iff, index independence via the C04 search-exactness theorems incl. the R-tree on dyadic coordinates); the model is tied to /repo by exhaustive small-lattice and random correspondence at geometry and object level under 8 index configurations.",
         "rule": "every ring of 3..4 vertices (5 thorough) on the 3x3 lattice against all 49 half-step query points, rotating through "
@@ -74,6 +75,7 @@ PROPS = {
     "C03": {
         "suites": ["c03"],
         "level": "proof",
+        "extra_modules": [{"module": "GeoProofs.Props.C03Convex", "theorems": ["Geo.closedRegion_convex", "Geo.closedRegion_iff_halfplanes", "Geo.ringContainsSegment_convex_flag", "Geo.ringContainsSegment_convex_exact", "Geo.ringContainsRing_convex_exact", "Geo.ringContainsLine_convex_exact", "Geo.poly_contains_exact_convex", "Geo.simpleRing_imp_ringSimple", "Geo.geom_contains_index_indep_valid", "Geo.geom_contains_index_indep_valid_sized", "Geo.plain_eq_build", "Geo.geom_contains_exact_convex_indexed", "Geo.rect_contains_exact_valid", "Geo.contains_exact_convex_receivers", "Geo.geom_contains_reflX_convex", "Geo.geom_contains_reflY_convex", "Geo.geom_contains_transpose_convex", "Geo.ringContainsRing_vertices_sound", "Geo.convex_flag_nonsimple_counterexample"]}],
         "proof_module": "GeoProofs.Props.C03All",
         "theorems": ["Geo.line_walk_terminates", "Geo.line_containsLine_eq", "Geo.rect_contains_rect_iff", "Geo.rect_contains_rect_illformed", "Geo.rect_contains_point_iff", "Geo.rect_contains_point_spec", "Geo.point_contains_point_iff", "Geo.point_contains_rect_iff", "Geo.box_contains_seriesRect_iff", "Geo.rect_contains_line_iff", "Geo.rect_contains_line_empty", "Geo.rect_contains_line_iff_onSeg", "Geo.rect_contains_poly_iff", "Geo.rect_contains_rectpoly", "Geo.seriesRect_eq_ptbox_iff", "Geo.point_contains_line_iff", "Geo.point_contains_poly_iff", "Geo.line_contains_point_iff", "Geo.line_contains_point_spec", "Geo.D4_wrong_true", "Geo.D4_wrong_false", "Geo.D5_wrong_true", "Geo.D5_wrong_false", "Geo.D13_wrong_true", "Geo.ringContainsSegment_of_avoids", "Geo.ringContainsSegment_of_avoids_all", "Geo.ringContainsSegment_false_of_avoids", "Geo.ringContainsRing_of_avoids", "Geo.ringContainsRing_of_avoids_all", "Geo.ringContainsRing_of_avoids_rect", "Geo.ringContainsLine_of_avoids", "Geo.ringIntersectsSegment_of_avoids", "Geo.ringIntersectsLine_strict_of_avoids", "Geo.ringIntersectsRing_strict_of_avoids", "Geo.poly_contains_line_of_no_contact", "Geo.poly_contains_rect_of_no_contact", "Geo.poly_contains_point_exact", "Geo.poly_contains_poly_noholes_of_no_contact", "Geo.poly_contains_exact_of_no_contact", "Geo.poly_containsPoly_closed_form", "Geo.line_contains_of_no_contact", "Geo.interiorOK_of_check", "Geo.ringContainsRing_shortcut_counterexample", "Geo.poly_contains_general_position_counterexample"],
         "trivial_sigs": set(),
@@ -549,6 +551,41 @@ def classify_group(pid, ops, members, impl, model, known_all):
         if kf.get("predicate") == "contains" and ka in kf.get("receiver", []) and kb in kf.get("argument", []) and (not kf.get("requires_contact") or contact):
             return kf["id"]
     return None
+
+def classify_float_break(pid, ops, i, impl, model_left, known):
+    """D23: the clockwise flag computed by float accumulation differs from the exact model on a ring
+    whose partial shoelace sums leave the range where the accumulation is exact (the hypothesis of
+    sgen_processPoints_exact fails: some |partial sum| >= 2^53 in units of 1/256)"""
+    kf = [k for k in known if k.get("op") == "attrs-clockwise-accumulation"]
+    if not kf:
+        return None
+    toks = ops[i].split()
+    if toks[0] == "same":
+        toks = toks[2:]
+    if toks[0] != "attrs":
+        return None
+    it, mt = impl.split(" "), model_left.split(" ")
+    if len(it) != len(mt) or it[1:] != mt[1:] or len(it[0]) != 4 or len(mt[0]) != 4:
+        return None
+    if it[0][0] != mt[0][0] or it[0][2:] != mt[0][2:] or it[0][1] == mt[0][1]:
+        return None                                  # only the clockwise flag may differ
+    t = _def_of(ops, i, toks[1])
+    if t is None or t[2] != "poly":
+        return None
+    try:
+        n = int(t[6])
+        pts = [(int(t[7 + 2 * k]), int(t[8 + 2 * k])) for k in range(n)]
+    except Exception:
+        return None
+    if len(pts) >= 2 and pts[0] == pts[-1]:
+        pts = pts[:-1]
+    s, worst = 0, 0
+    for k in range(len(pts)):
+        a, b = pts[k], pts[(k + 1) % len(pts)]
+        s += (b[0] - a[0]) * (b[1] + a[1])
+        worst = max(worst, abs(s))
+    return kf[0]["id"] if worst >= 2 ** 53 else None
+
 
 HOOK_COMMITS = ["f06195a"]
 NOT_YET = {}
